@@ -36,7 +36,12 @@ type c20Reads struct {
 	D2     W             `json:"d2,omitempty"`
 	More   []W           `json:"more,omitempty"` // origin layers: the layers after the second one
 	Calls  []c20lib.Call `json:"calls"`
+	Pre    []c20lib.Fail `json:"pre,omitempty"` // serialisations of other documents that fail part-way, performed before (and once more after) the reads
+	Pad    int           `json:"pad,omitempty"` // > 0: D1 additionally holds a string leaf of this many bytes (c20lib.Padded)
 }
+
+// c20Pads: string leaves that make the serialised / loaded text just under, at and just over 512 B, 4 KiB, 64 KiB, 1 MiB.
+var c20Pads = []int{470, 512, 530, 4050, 4096, 4120, 65490, 65536, 65560, 1<<20 - 60, 1 << 20, 1<<20 + 30}
 
 type c20Writer struct {
 	D1  W      `json:"d1"`
@@ -48,7 +53,7 @@ type c20Writer struct {
 
 func init() {
 	register(&Prop{ID: "C20", Run: c20Run,
-		Rule: "documents from the shared generator with empty containers / empty lists at every depth (PEmpty raised), lists of 0-7 and 10-13 items built by successive Append calls (so lengths 3, 5, 6, 7, 10-13 have spare capacity), obtained as freshly built, loaded via FromReader, FromMap, merged (both list strategies), cloned, sealed, as two-layer overlays whose upper layer is unrelated, a near copy of the lower one, or an addendum to it (below the same keys some lists overridden by 1-3 additional items, some scalars overridden), and as overlays of 3-5 layers generated together position by position (origin `layers`: below shared keys every layer independently holds nothing / null / a scalar / a list / a container, the containers several layers hold at one key generated together again, so the layers overlap and disagree in kind at every depth - null or leaf then container then container again, container then null then container, ... - with empty containers at every depth); read calls drawn from the whole read API with paths that exist, paths that do not, and list-index paths (flattened paths of the document with [i] groups, small out-of-range indexes, and indexes far out of range that no earlier round of the run has used), Merged with the default and the ListsMergeAppend option, plus ContainerBuilder.Merge(other, opts) with the document as receiver and as `other` (both strategies; other = unrelated / near copy / addendum). reads: fingerprint (reflection incl. unexported fields, nil-vs-empty maps, slice len/cap and the backing array between len and cap) before/after every call; every view handed out (merged view, layer snapshot, clone, merge result) is retained and must be unchanged after all later reads; for overlays the fingerprint is also taken per layer, and after all reads every layer's snapshot content must equal that of the same layer of an identically built overlay nobody has read. race: 16 goroutines x 3-8 random read calls on a fresh instance per round under `go build -race` (200 rounds quick, 5000 thorough); the concurrent readers are the first to read the instance and the first in the process to use the round's paths / child names - the single-threaded reference observations are computed only afterwards, on another fresh instance - so anything a read path initialises or memoises lazily (in the document or in package-level state) is initialised under concurrency. Non-trivial: the document has at least one composite child. distinct = distinct canonical case JSON.",
+		Rule: "documents from the shared generator with empty containers / empty lists at every depth (PEmpty raised), lists of 0-7 and 10-13 items built by successive Append calls (so lengths 3, 5, 6, 7, 10-13 have spare capacity), obtained as freshly built, loaded via FromReader, FromMap, merged (both list strategies), cloned, sealed, as two-layer overlays whose upper layer is unrelated, a near copy of the lower one, or an addendum to it (below the same keys some lists overridden by 1-3 additional items, some scalars overridden), and as overlays of 3-5 layers generated together position by position (origin `layers`: below shared keys every layer independently holds nothing / null / a scalar / a list / a container, the containers several layers hold at one key generated together again, so the layers overlap and disagree in kind at every depth - null or leaf then container then container again, container then null then container, ... - with empty containers at every depth); read calls drawn from the whole read API with paths that exist, paths that do not, and list-index paths (flattened paths of the document with [i] groups, small out-of-range indexes, and indexes far out of range that no earlier round of the run has used), Merged with the default and the ListsMergeAppend option, plus ContainerBuilder.Merge(other, opts) with the document as receiver and as `other` (both strategies; other = unrelated / near copy / addendum). reads: fingerprint (reflection incl. unexported fields, nil-vs-empty maps, slice len/cap and the backing array between len and cap) before/after every call; every view handed out (merged view, layer snapshot, clone, merge result) is retained and must be unchanged after all later reads; for overlays the fingerprint is also taken per layer, and after all reads every layer's snapshot content must equal that of the same layer of an identically built overlay nobody has read. race: 16 goroutines x 3-8 random read calls on a fresh instance per round under `go build -race` (200 rounds quick, 5000 thorough); the concurrent readers are the first to read the instance and the first in the process to use the round's paths / child names - the single-threaded reference observations are computed only afterwards, on another fresh instance - so anything a read path initialises or memoises lazily (in the document or in package-level state) is initialised under concurrency. identity: one Merge call in seven merges the document (or a container inside it) with ITSELF (receiver and other are one object). size: every fiftieth reads case and every fortieth race round the document additionally holds a string leaf of 470 B ... 1 MiB + 30 B (the text FromReader loads / Serialize writes is just under, at, just over 512 B, 4 KiB, 64 KiB, 1 MiB; multi-byte characters every few bytes). failure first (every third reads case, every second race round): 1-3 serialisations of OTHER documents that fail part-way precede the reads / are performed after the 16 goroutines have been created and before they are released - a float leaf JSON cannot represent (NaN, +Inf, -Inf; put by the builder or loaded from YAML), a leaf whose own MarshalJSON / MarshalYAML reports an error (placed early, late or deep in the document), an io.Writer failing after 0 / 1 / a few / hundreds of bytes, through Container.Serialize or the single-layer OverlayDocument.Serialize, with both default encoders; in those cases every call sequence contains a Serialize of the document under test (both encoders), single-threaded observations must equal the ones an identically built instance gave before any serialisation had failed, and a failing Serialize leaves the fingerprint of its own document unchanged. Non-trivial: the document has at least one composite child. distinct = distinct canonical case JSON.",
 		Assumptions: []string{"the race detector only observes the schedules that occur; the schedule quantifier is carried by the write-freedom theorem over the extracted effect table",
 			"effect extractor rules (syntactic points-to, freshness, allow-list of external calls, caller-supplied callbacks do not write) are trusted and validated dynamically here",
 			"Go memory model and runtime"}})
@@ -124,6 +129,13 @@ func c20GenCalls(r *rand.Rand, g *DocGen, origin string, d1, d2 W, n int, more .
 		case "ContainerBuilder.Merge":
 			// the other operand: a near copy of the document (same lists under the same keys), or unrelated
 			c.Opt = pick(r, []string{"", "append"})
+			if r.Intn(7) == 0 {
+				// the document (or a container inside it) merged with ITSELF: V absent
+				if r.Intn(2) == 0 {
+					c.Path = anyPath()
+				}
+				break
+			}
 			switch r.Intn(4) {
 			case 0:
 				c.V = g.Doc(r)
@@ -135,7 +147,7 @@ func c20GenCalls(r *rand.Rand, g *DocGen, origin string, d1, d2 W, n int, more .
 			default:
 				c.V = c20Addendum(r, g, d1)
 			}
-			if c.Path == "" && r.Intn(2) == 0 {
+			if c.V != nil && c.Path == "" && r.Intn(2) == 0 {
 				// the same merge again with another operand: the first result must survive it
 				out = append(out, c)
 				i++
@@ -164,6 +176,54 @@ func c20GenCalls(r *rand.Rand, g *DocGen, origin string, d1, d2 W, n int, more .
 		out = append(out, c)
 	}
 	return out
+}
+
+// c20GenFails: 1-3 calls of the serialisation API that fail part-way, each on a document of its own: a float leaf
+// JSON cannot represent (NaN / +Inf / -Inf, put by the builder or loaded from YAML .nan / .inf), a leaf whose own
+// marshalling method reports an error (fails both default encoders, after what they had emitted before reaching it),
+// or an io.Writer that fails after n bytes (0, 1, a few, hundreds).
+func c20GenFails(r *rand.Rand, g *DocGen) []c20lib.Fail {
+	var out []c20lib.Fail
+	for n := 1 + r.Intn(3); n > 0; n-- {
+		d := g.Doc(r)
+		var paths, lists []string
+		wirePaths(d, "", &paths, &lists)
+		f := c20lib.Fail{D: d, Enc: pick(r, []string{"json", "yaml"}), Overlay: r.Intn(4) == 0,
+			How: pick(r, []string{"NaN", "NaN", "+Inf", "-Inf", "marshaler", "marshaler", "writer", "writer"})}
+		switch f.How {
+		case "writer":
+			f.N = pick(r, []int{0, 0, 1, 2, 7, 16, 100, 511, r.Intn(600)})
+		case "marshaler":
+		default:
+			f.Enc = "json"
+			f.Loaded = r.Intn(3) == 0
+		}
+		if f.How != "writer" {
+			// early, late, or deep in the document
+			f.P = pick(r, []string{"zz", "zz", "A0", pick(r, g.Keys), pick(r, g.Keys) + ".zz"})
+			if len(paths) > 0 && r.Intn(3) == 0 {
+				f.P = pick(r, paths)
+			}
+		}
+		out = append(out, f)
+	}
+	return out
+}
+
+// c20WithSerialize: every sequence gets a Serialize call (both encoders occur), at a random position.
+func c20WithSerialize(r *rand.Rand, origin string, seqs [][]c20lib.Call) {
+	m := "Container.Serialize"
+	if origin == "overlay" || origin == "layers" {
+		m = "OverlayDocument.Serialize"
+	}
+	for i, seq := range seqs {
+		c := c20lib.Call{M: m, V: pick(r, []string{"yaml", "json"})}
+		at := r.Intn(len(seq) + 1)
+		seq = append(seq, c)
+		copy(seq[at+1:], seq[at:])
+		seq[at] = c
+		seqs[i] = seq
+	}
 }
 
 var c20Origins = []string{"built", "loaded", "frommap", "merged", "merged-append", "cloned", "sealed", "overlay", "overlay", "layers", "layers"}
@@ -372,7 +432,22 @@ func c20Run(c *Ctx) {
 		c.Tick()
 		o := pick(r, c20Origins)
 		d1, d2, more := c20GenDocs(r, g, o)
-		c.Do("reads", c20Reads{Origin: o, D1: d1, D2: d2, More: more, Calls: c20GenCalls(r, g, o, d1, d2, 2+r.Intn(6), more...)})
+		cs := c20Reads{Origin: o, D1: d1, D2: d2, More: more, Calls: c20GenCalls(r, g, o, d1, d2, 2+r.Intn(6), more...)}
+		if i%50 == 7 {
+			// a LARGE document: a long string leaf (the text read by FromReader / written by Serialize crosses a size threshold)
+			cs.Pad = pick(r, c20Pads)
+			seqs := [][]c20lib.Call{cs.Calls}
+			c20WithSerialize(r, o, seqs)
+			cs.Calls = seqs[0]
+		}
+		if i%3 == 2 {
+			// reads that follow (and are followed by) serialisations of other documents that fail part-way
+			cs.Pre = c20GenFails(r, g)
+			seqs := [][]c20lib.Call{cs.Calls}
+			c20WithSerialize(r, o, seqs)
+			cs.Calls = seqs[0]
+		}
+		c.Do("reads", cs)
 	}
 	ops := []string{"AddValue", "AddValueAt", "AddContainer", "AddList", "Remove", "RemoveAt", "Merge", "ListAppend", "ListSet", "ListClear", "OverlayPut", "OverlayAdd", "Seal"}
 	for i := 0; i < c.N(300); i++ {
@@ -408,6 +483,15 @@ func c20Run(c *Ctx) {
 		cs := c20lib.Case{Origin: o, D1: d1, D2: d2, More: more, Repeat: 2}
 		for gi := 0; gi < 16; gi++ {
 			cs.Seqs = append(cs.Seqs, c20GenCalls(r, g, o, d1, d2, 3+r.Intn(6), more...))
+		}
+		if i%40 == 10 {
+			cs.Pad = pick(r, c20Pads)
+		}
+		if i%2 == 1 {
+			// failure first: serialisations of other documents fail part-way before the readers are released, and
+			// every reader serialises the document at some point of its sequence
+			cs.Pre = c20GenFails(r, g)
+			c20WithSerialize(r, o, cs.Seqs)
 		}
 		batch = append(batch, cs)
 	}
@@ -648,7 +732,33 @@ func c20EvalReads(c *Ctx, p c20Reads) {
 		c.Nontrivial()
 	}
 	c.Dist("origin:" + p.Origin)
+	if p.Pad > 0 {
+		c.Dist(fmt.Sprintf("reads:large-document(string leaf of %d bytes)", p.Pad))
+		p.D1 = c20lib.Padded(p.D1, p.Pad)
+	}
 	out, txt := guard(func() {
+		// failure first: what the calls observe on an identically built instance BEFORE any serialisation has failed,
+		// then serialisations of other documents that fail part-way (a failed read does not write either: the
+		// fingerprint of its document is unchanged)
+		var asBefore []string
+		failing := func(when string) {
+			for _, f := range p.Pre {
+				doc, ser := f.Build()
+				fpBefore := c20lib.Fingerprint(doc)
+				failed := f.RunOn(ser)
+				c.Dist(fmt.Sprintf("failing-serialisation:%s/%s:failed=%v", f.How, f.Enc, failed))
+				fpAfter := c20lib.Fingerprint(doc)
+				c.Direct("fingerprint-unchanged(Serialize that fails)", fpBefore == fpAfter,
+					map[string]any{"when": when, "call": f, "diff-at": c20FirstDiff(fpBefore, fpAfter)})
+			}
+		}
+		if len(p.Pre) > 0 {
+			s0 := c20lib.Build(p.Origin, p.D1, p.D2, p.More...)
+			for _, call := range p.Calls {
+				asBefore = append(asBefore, s0.Exec(call))
+			}
+			failing("before the reads")
+		}
 		s := c20lib.Build(p.Origin, p.D1, p.D2, p.More...)
 		s.Keep = true
 		subj := func() any {
@@ -675,12 +785,16 @@ func c20EvalReads(c *Ctx, p c20Reads) {
 				c.Dist("layers:kind-conflict-then-container-again")
 			}
 		}
-		for _, call := range p.Calls {
+		for ci, call := range p.Calls {
 			c.Dist("call:" + call.M)
 			if call.Opt != "" {
 				c.Dist("call:" + call.M + "(" + call.Opt + ")")
 			}
 			o1 := s.Exec(call)
+			if ci < len(asBefore) {
+				c.Direct("observation-after-failed-serialisations-of-other-documents==before("+call.M+")", o1 == asBefore[ci],
+					map[string]any{"call": call, "before": c20Clip(asBefore[ci]), "after": c20Clip(o1)})
+			}
 			after := c20lib.Fingerprint(subj())
 			if !c.Direct("fingerprint-unchanged("+call.M+")", before == after,
 				map[string]any{"call": call, "before": c20Clip(before), "after": c20Clip(after), "diff-at": c20FirstDiff(before, after)}) && s.O != nil {
@@ -729,9 +843,17 @@ func c20EvalReads(c *Ctx, p c20Reads) {
 				c.Direct("layer-content-as-built-after-reads", got[ln] == want[ln], map[string]any{"layer": ln, "now": c20Clip(got[ln]), "as-built": c20Clip(want[ln])})
 			}
 		}
-		for _, call := range p.Calls {
+		if len(p.Pre) > 0 {
+			// ... and once more between the reads above and the ones below
+			failing("between the reads")
+		}
+		for ci, call := range p.Calls {
 			a, b := s.Exec(call), s2.Exec(call)
 			c.Direct("same-content-same-observation("+call.M+")", a == b, map[string]any{"call": call, "a": c20Clip(a), "b": c20Clip(b)})
+			if ci < len(asBefore) {
+				c.Direct("observation-after-failed-serialisations-of-other-documents==before("+call.M+")", a == asBefore[ci],
+					map[string]any{"call": call, "before": c20Clip(asBefore[ci]), "after": c20Clip(a), "repeated": true})
+			}
 		}
 	})
 	c.Direct("no-panic", out == "ok", txt)
@@ -903,6 +1025,9 @@ func c20EvalRace(c *Ctx, p c20lib.Case) {
 	if p.Repeat < 1 {
 		p.Repeat = 1
 	}
+	if p.Pad > 0 {
+		c.Dist("race-case:large-document")
+	}
 	res := c20RunRace(c, []c20lib.Case{p}, 2*time.Minute)
 	if res.err != "" && res.exit != 66 {
 		c.Direct("race-program-runs", false, res.err)
@@ -912,7 +1037,7 @@ func c20EvalRace(c *Ctx, p c20lib.Case) {
 	c.Direct("observations-equal-single-threaded", len(res.mismatch) == 0, res.mismatch)
 	// the same sequences single-threaded leave the fingerprint alone (ties the race to a write)
 	if !c.probe {
-		s := c20lib.Build(p.Origin, p.D1, p.D2, p.More...)
+		s := c20lib.Build(p.Origin, c20lib.Padded(p.D1, p.Pad), p.D2, p.More...)
 		var subj any = s.C
 		if s.O != nil {
 			subj = s.O
